@@ -287,6 +287,8 @@ VARIANTS = {
 
 
 def build_cdriver(variant="asan"):
+    if variant == "frame":
+        return os.path.join(BUILD, "cdriver.frame")   # built by extras.build_frame_driver
     flags = VARIANTS[variant]
     hsrc = [os.path.join(ROOT, "harness", "cdriver.c"), os.path.join(ROOT, "harness", "oracle.c")]
     h = file_hash(repo_inputs() + hsrc, " ".join(flags))
@@ -294,7 +296,9 @@ def build_cdriver(variant="asan"):
     if stamp_ok("cdriver." + variant, h) and os.path.exists(exe):
         return exe
     cmd = flags + ["-w"] + INC + hsrc + repo_sources() + [
-        "-lutf8proc", "-Wl,--wrap=malloc,--wrap=free,--wrap=time", "-o", exe]
+        "-lutf8proc", "-Wl,--wrap=malloc,--wrap=free,--wrap=time", "-Wl,-z,now", "-o", exe]
+    # -z now: no lazy PLT resolution (the resolver spills all vector registers, stale
+    # driver data included, onto the stack under test and would pollute the dead-stack scan)
     rc, out = sh(cmd, timeout=600)
     if rc != 0:
         raise BuildError("C driver (%s) does not build against the tree" % variant, out)
@@ -334,7 +338,7 @@ def _read_results(path, n):
 _run_counter = [0]
 
 
-def run_cases(lines, variant="asan", sgn=None, per_case_timeout=120, keep=None):
+def run_cases(lines, variant="asan", sgn=None, per_case_timeout=120, keep=None, mode=None, with_model=True):
     """run op lines (split at `reset` boundaries into parallel chunks)"""
     from concurrent.futures import ThreadPoolExecutor
     n = len(lines)
@@ -350,9 +354,9 @@ def run_cases(lines, variant="asan", sgn=None, per_case_timeout=120, keep=None):
     chunks = [(bounds[i], bounds[i + 1]) for i in range(len(bounds) - 1) if bounds[i + 1] > bounds[i]]
     build_cdriver(variant)
     if len(chunks) <= 1:
-        return run_cases_1(lines, variant, sgn, per_case_timeout, keep)
+        return run_cases_1(lines, variant, sgn, per_case_timeout, keep, mode, with_model)
     with ThreadPoolExecutor(max_workers=NCPU) as ex:
-        parts = list(ex.map(lambda ab: run_cases_1(lines[ab[0]:ab[1]], variant, sgn, per_case_timeout, keep), chunks))
+        parts = list(ex.map(lambda ab: run_cases_1(lines[ab[0]:ab[1]], variant, sgn, per_case_timeout, keep, mode, with_model), chunks))
     rr = RunResult()
     rr.cases = lines
     for (a, b), pr in zip(chunks, parts):
@@ -366,7 +370,7 @@ def run_cases(lines, variant="asan", sgn=None, per_case_timeout=120, keep=None):
 _run_lock = __import__("threading").Lock()
 
 
-def run_cases_1(lines, variant="asan", sgn=None, per_case_timeout=120, keep=None):
+def run_cases_1(lines, variant="asan", sgn=None, per_case_timeout=120, keep=None, mode=None, with_model=True):
     """run op lines on the C driver (restarting after a crash at the next
     `reset`), then on the model driver.  sgn: force model signedness."""
     cexe = os.path.join(BUILD, "cdriver." + variant)
@@ -389,7 +393,7 @@ def run_cases_1(lines, variant="asan", sgn=None, per_case_timeout=120, keep=None
     while start <= n and attempts < 200:
         attempts += 1
         rf = os.path.join(d, "c.%d.txt" % attempts)
-        rc, out = sh([cexe, cf, rf, str(start)], timeout=max(per_case_timeout, 60 + n // 50), env=env)
+        rc, out = sh([cexe, cf, rf, str(start)] + ([mode] if mode else []), timeout=max(per_case_timeout, 60 + n // 50), env=env)
         part = _read_results(rf, n)
         last = 0
         for i in range(n):
@@ -418,6 +422,13 @@ def run_cases_1(lines, variant="asan", sgn=None, per_case_timeout=120, keep=None
     with open(cfull, "w") as f:
         for i in range(n):
             f.write("%d %s\n" % (i + 1, cres[i] if cres[i] is not None else "NOTRUN"))
+    rr.c = cres
+    if not with_model:
+        rr.m = [None] * n
+        rr.s = [None] * n
+        if keep is None:
+            shutil.rmtree(d, ignore_errors=True)
+        return rr
     mf = os.path.join(d, "m.txt")
     sf = os.path.join(d, "s.txt")
     cmd = [mexe, cf, cfull, mf, sf]
